@@ -14,7 +14,7 @@ from vf.zoo import unit, vec
 
 ID = "C17"
 LEVEL = "exploration"
-BUDGET = {"quick": 6400, "thorough": 64000}
+BUDGET = {"quick": 12800, "thorough": 128000}
 RULE = (
     "Hypothesis draws (a) acceptance-statistic sequences (length 1-1000 incl. all-0, all-1, alternating, NaN-free), "
     "adapter settings (target, regularisation coefficient/target, decay 0.5-1, offset 0-50), 1-6 chains and the "
